@@ -18,7 +18,7 @@ use crate::{
     tape::Tape,
 };
 
-const TOL: f64 = 1e-9;
+const TOL: f64 = 1e-12;
 
 /// (n_obj, N) as in C12: objects of the map, judgements the mode expects.
 fn sizes(shape: &Shape, origin: Origin) -> (u32, u32) {
@@ -105,12 +105,12 @@ fn achievable(shape: &Shape, origin: Origin, misses: u32, template: &ScoreState)
 
 /// The oracle for one (shape, origin, misses, priority, target).
 fn check_target(shape: &Shape, origin: Origin, misses: Option<u32>, worst: bool, target: f64, cache: &mut Option<(u32, Vec<f64>)>) -> Result<bool, String> {
-    check_target_via(shape, origin, misses, worst, target, cache, false)
+    check_target_via(shape, origin, misses, worst, target, cache, 0)
 }
 
 #[allow(clippy::too_many_arguments)]
-fn check_target_via(shape: &Shape, origin: Origin, misses: Option<u32>, worst: bool, target: f64, cache: &mut Option<(u32, Vec<f64>)>, via_setters: bool) -> Result<bool, String> {
-    let p = Provided { accuracy: Some(target), misses, worst_case: Some(worst), via_setters, ..Provided::default() };
+fn check_target_via(shape: &Shape, origin: Origin, misses: Option<u32>, worst: bool, target: f64, cache: &mut Option<(u32, Vec<f64>)>, route: u8) -> Result<bool, String> {
+    let p = Provided { accuracy: Some(target), misses, worst_case: Some(worst), via_setters: route == 1, via_inspect: route.saturating_sub(1), ..Provided::default() };
     let s = p.apply(shape.attrs(), origin).generate_state();
     let (n_obj, n_total) = sizes(shape, origin);
     let expect_misses = misses.unwrap_or(0).min(n_obj);
@@ -152,7 +152,7 @@ fn critical_targets(accs: &[f64]) -> Vec<f64> {
         t.extend([a, a - 1e-7, a + 1e-7]);
         if let Some(b) = accs.get(i + 1) {
             let m = (a + b * 100.0) / 2.0;
-            t.extend([m, m - 1e-7, m + 1e-7]);
+            t.extend([m, m - 1e-7, m + 1e-7, m - 2e-9, m + 2e-9]);
         }
     }
     let mut k = 0.0;
@@ -228,8 +228,8 @@ fn enumerate(thorough: bool) -> EnumReport {
                             }
                             for &target in &targets {
                                 evals += 1;
-                                // the origin is expressed through a Difficulty and through the Performance setters alternately
-                                match check_target_via(shape, origin, Some(misses), worst, target, &mut cache, evals % 2 == 0) {
+                                // the origin is expressed in turn through a Difficulty, the Performance setters, and a Difficulty that went through InspectDifficulty (into_difficulty / From)
+                                match check_target_via(shape, origin, Some(misses), worst, target, &mut cache, (evals % 4) as u8) {
                                     Ok(nt) => {
                                         if nt {
                                             nontrivial += 1;
@@ -268,7 +268,7 @@ fn enumerate(thorough: bool) -> EnumReport {
     EnumReport {
         name: "small-shapes-exhaustive",
         rule: format!(
-            "exhaustive enumeration of every small attribute shape (osu: circles 0..=8 x sliders 0..=3 x large ticks 0..=2; taiko: max_combo 0..=12; catch: fruits 0..=6 x droplets 0..=3 x tiny 0..=6; mania: objects 0..={} x hold notes 0..=3) x origin (stable / lazer / lazer+Classic / lazer+Classic with slider-head accuracy switched back on, where it matters; expressed alternately through a Difficulty and through the Performance::lazer/mods setters) x every miss count 0..=n_obj+1 x both priorities x the critical target grid (every achievable accuracy of the shape, midpoints of consecutive ones, each +-1e-7 percent, 0, 100, 0.5% lattice). Oracle: brute force over every distribution of hit results over the same objects with the generated miss count (slider-part hits as the state reports): misses == min(given, n_obj), the state distributes exactly N judgements, and |acc(state) - target| <= min over all distributions + 1e-9. Each (shape, origin, misses, priority, target) tuple is distinct by construction; non-trivial: N - misses >= 2 and target strictly between the extreme achievable accuracies.",
+            "exhaustive enumeration of every small attribute shape (osu: circles 0..=8 x sliders 0..=3 x large ticks 0..=2; taiko: max_combo 0..=12; catch: fruits 0..=6 x droplets 0..=3 x tiny 0..=6; mania: objects 0..={} x hold notes 0..=3) x origin (stable / lazer / lazer+Classic / lazer+Classic with slider-head accuracy switched back on, where it matters; expressed in turn through a Difficulty, through the Performance::lazer/mods setters, and through a Difficulty that went through InspectDifficulty) x every miss count 0..=n_obj+1 x both priorities x the critical target grid (every achievable accuracy of the shape, midpoints of consecutive ones, each +-1e-7 percent, midpoints also +-2e-9 percent, 0, 100, 0.5% lattice). Oracle: brute force over every distribution of hit results over the same objects with the generated miss count (slider-part hits as the state reports): misses == min(given, n_obj), the state distributes exactly N judgements, and |acc(state) - target| <= min over all distributions + 1e-12. Each (shape, origin, misses, priority, target) tuple is distinct by construction; non-trivial: N - misses >= 2 and target strictly between the extreme achievable accuracies.",
             if thorough { 8 } else { 7 }
         ),
         evaluations,
@@ -319,8 +319,8 @@ fn case_large(t: &mut Tape, info: &mut CaseInfo) -> Result<(), String> {
         info.sample = Some(json!({"shape": shape.describe(), "origin": format!("{origin:?}"), "misses": misses, "worst_case": worst, "target_accuracy": target}));
         info.direct = Some(json!({"shape": shape_json(&shape), "origin": format!("{origin:?}"), "misses": misses, "worst_case": worst, "target": format!("{target:?}")}));
     }
-    let via_setters = t.coin();
-    info.nontrivial = check_target_via(&shape, origin, misses, worst, target, &mut None, via_setters)?;
+    let route = t.below(4) as u8;
+    info.nontrivial = check_target_via(&shape, origin, misses, worst, target, &mut None, route)?;
     info.comparisons += 1;
     info.set_key(&format!("{shape:?}{origin:?}{misses:?}{worst}{target}"));
     Ok(())
@@ -349,7 +349,7 @@ pub fn property() -> Property {
                 direct: Some(direct),
             },
         ],
-        assumptions: &["accuracies are compared with an absolute slack of 1e-9 (two evaluations of the same rational expression)"],
+        assumptions: &["accuracies are compared with an absolute slack of 1e-12 (two evaluations of the same rational expression)"],
         enumerate: Some(enumerate),
     }
 }
